@@ -136,6 +136,9 @@ pub struct Opts {
     pub only_fn: Option<String>,
     pub ctx_vars: Vec<(String, T)>,
     pub rt_consts: Vec<(String, T)>,
+    /// assignments to function names, enum constructors and type names (the
+    /// targets are the same in all seeds of a bulk family: done in its first seed)
+    pub e8_names: bool,
 }
 
 fn lit_of(t: &T) -> Option<String> {
@@ -582,6 +585,9 @@ impl<'a> Gen<'a> {
             }
         }
         // function names, enum constructors, type names: once per function
+        if !opts.e8_names {
+            return;
+        }
         let at = body.sp.s + 1;
         let mut fn_names = vec![];
         let mut ctors = vec![("Option.None".to_string(), "Option.None".to_string()), ("Option.Some".to_string(), "1".to_string())];
